@@ -422,6 +422,16 @@ func genOptions(r *lib.Rng, c *Case, kind string, malformed bool) {
 	if kind == "abaco" {
 		c.Demux = r.Bool()
 		c.PF = r.Pick([]int{1, 2, 3, 7, 16, 50})
+		if c.Demux && r.Chance(2, 5) {
+			// wide groups, mostly not a multiple of 8 or 16: any fan-out of the per-channel unwrapping over a
+			// bounded number of workers must still reach every channel (seed C12-17)
+			c.NChan = r.Pick([]int{9, 11, 12, 13, 17, 21, 24, 31, 33, 40})
+			c.Idx = r.Intn(c.NChan)
+			if r.Bool() {
+				c.Idx = c.NChan - 1 - r.Intn(4)
+			}
+			c.InvChan = append(c.InvChan, c.FirstChan+r.Range(-1, c.NChan))
+		}
 	}
 	if kind == "roach" {
 		c.Resample = r.Bool()
